@@ -634,8 +634,12 @@ func countSelectUnionChildren(n *ast.SelectWithUnionQuery) int {
 			break
 		}
 	}
-	// Count union-level SETTINGS (either before or after FORMAT)
-	if len(n.Settings) > 0 && (n.SettingsBeforeFormat || n.SettingsAfterFormat) {
+	// Count union-level SETTINGS exactly as explainSelectWithUnionQuery outputs them:
+	// one Set before FORMAT, one Set after FORMAT
+	if n.SettingsBeforeFormat && len(n.Settings) > 0 {
+		count++
+	}
+	if n.SettingsAfterFormat && len(n.Settings) > 0 {
 		count++
 	} else {
 		// Legacy check for settings on SelectQuery
